@@ -18,7 +18,7 @@ FORBIDDEN = re.compile(r'\b(sorry|admit|native_decide|bv_decide|implemented_by|u
 # property -> suites that feed it
 SUITES = {
     'C01': ['wrapper', 'keys', 'multi'], 'C02': ['wrapper', 'multi'], 'C05': ['wrapper', 'multi'], 'C06': ['wrapper', 'multi'],
-    'C07': ['wrapper', 'multi'], 'C15': ['wrapper', 'multi'], 'C16': ['wrapper', 'multi'], 'C18': ['wrapper', 'round', 'sites', 'keys'],
+    'C07': ['wrapper', 'multi'], 'C15': ['wrapper', 'multi'], 'C16': ['wrapper', 'multi'], 'C18': ['wrapper', 'round', 'sites', 'keys', 'multi'],
     'C08': ['cache'], 'C20': ['clone'], 'C12': ['round'], 'C17': ['session', 'keys'],
     'C03': ['backend'], 'C04': ['persist', 'multi'], 'C13': ['fs'], 'C14': ['sched'],
     'C09': ['keys', 'round'], 'C10': ['keys', 'round'], 'C11': ['keys'], 'C19': ['keys'],
